@@ -91,7 +91,7 @@ def register(PROPS, COMPONENTS):
         level_text="Lean 4 theorems (kernel-checked, unbounded threads/calls/interleavings, spurious wake-ups included) over an "
                    "executable model of Latch.hpp at the level of its mutex / condition-variable / atomic operations: wait soundness "
                    "(stated both on the ghost decrement counter and on the arrive / arrive_and_wait CALLS of the trace itself: "
-                   "C10_arrived_accounting, C10_arrived_le_calls, C10_wait_needs_calls), "
+                   "C10_arrived_accounting, C10_arrived_le_calls, C10_wait_needs_calls, and conversely C10_calls_open), "
                    "no-lost-wake-up invariant, holder-never-blocked, bounded remaining steps once open, arrive never waits, and termination: "
                    "once open, deadlock-freedom plus a strictly decreasing rank make every execution with finitely many calls end with "
                    "all waiters returned, under every scheduler. The model is "
